@@ -33,6 +33,9 @@ type Check struct {
 	EvalCounter string
 	// Race requests the -race build of the worker.
 	Race bool
+	// RaceIsViolation, if set, decides whether a race report (reduced to
+	// "siteA <-> siteB") is a verdict for this property.
+	RaceIsViolation func(pair string) bool
 	// MaxWorkers bounds parallel worker processes (default 16).
 	MaxWorkers int
 	// CaseTimeout is the per-case watchdog (default 120s). Firing = inconclusive
